@@ -202,6 +202,10 @@ impl<T> ResourceController<T> {
 
 	pub fn try_reserve(&self) -> Result<Key, ResourceLimitReached> {
 		verif_hook!("res.reserve.pre", self as *const Self as usize, 0);
+		// an arena with a capacity of zero is always full
+		if self.arena_controller.capacity() == 0 {
+			return Err(ResourceLimitReached);
+		}
 		self.arena_controller
 			.try_reserve()
 			.map_err(|_| ResourceLimitReached)
